@@ -107,6 +107,12 @@ theorem secpOps_liftX (hp : Nat.Prime secp256k1_p) (hn : Nat.Prime secp256k1_n) 
 theorem secp_sizes : (EC.ops secp256k1).p ≤ 2 ^ 256 ∧ (EC.ops secp256k1).n ≤ 2 ^ 256 ∧ 0 < (EC.ops secp256k1).n := by
   decide +kernel
 
+/-- `if_pos` / `if_neg` whatever `Decidable` instance the (Mathlib-free) model elaborated -/
+theorem ite_pos' {α : Sort _} {c : Prop} {inst : Decidable c} (h : c) (a b : α) : @ite α c inst a b = a := by
+  simp [h]
+theorem ite_neg' {α : Sort _} {c : Prop} {inst : Decidable c} (h : ¬c) (a b : α) : @ite α c inst a b = b := by
+  simp [h]
+
 /-! ## general transfer facts about `opsSub` -/
 section
 variable {p : ℕ} [Fact p.Prime] {C : Curve}
